@@ -12,6 +12,7 @@ import NumbersModel.Gen.TrNumFmt
 import NumbersModel.Gen.TrAddr
 import NumbersModel.Gen.TrDateFmt
 import NumbersModel.Gen.TrDuration
+import NumbersModel.Gen.TrDec128
 import NumbersModel.Drv.Addressing
 import NumbersModel.Model.DateFmt
 
@@ -33,6 +34,9 @@ def handleTrA1 : List String → Option String
   | ["coloff", s] => do
     let s ← parseText s
     pure (showPyM (fun (i : Int) => s!"{i}") (xl_col_to_offset s))
+  | ["colidx", s] => do
+    let s ← parseText s
+    pure (showPyM (fun (i : Int) => s!"{i}") (col_to_index s))
   | _ => none
 
 /-- `getitem <n> <name_1> … <name_n> (i <int> | s <text> | o)`: reply `ok <index of the returned item>` -/
@@ -108,6 +112,13 @@ def handleTrDuration : List String → Option String
     pure (showPyM showText (unit_format u v st ab))
   | _ => none
 
+/-- `unpack <hex bytes>`: reply `ok <sign> <signed mantissa> <exp>` (what the source hands to the final `float(...)`) -/
+def handleTrD128 : List String → Option String
+  | ["unpack", b] => do
+    let b ← parseBytes b
+    pure (showPyM (fun (r : Int × Int × Int) => s!"{r.1} {r.2.1} {r.2.2}") (unpack_decimal128 b))
+  | _ => none
+
 def trDispatch (line : String) : String :=
   let ws := (line.splitOn " ").filter (· ≠ "")
   let r : Option String := match ws with
@@ -117,6 +128,7 @@ def trDispatch (line : String) : String :=
     | "addr" :: rest => handleTrAddr rest
     | "datefmt" :: rest => handleTrDateFmt rest
     | "dur" :: rest => handleTrDuration rest
+    | "d128" :: rest => handleTrD128 rest
     | _ => none
   match r with
   | some s => s
